@@ -311,7 +311,39 @@ Proof.
   unfold steps_ecdh_init, steps_ecdh_reply. cbn [run_steps lib_ok]. intros ->. split; reflexivity.
 Qed.
 
-(* ---- the SEC1 validation spec: an accepted uncompressed point is on the curve ---------------- *)
+(* ---- the SEC1 validation spec ---------------------------------------------------------------------- *)
+(* what an accepted encoding looks like *)
+Lemma ec_accept_shape p a b flen sq t r :
+  ec_accept (p, a, b, flen) sq (t :: r) = true ->
+  let n := Z.to_nat (Z.min flen 128) in
+  (t = 4 /\ length r = (2 * n)%nat /\
+   0 <= be_decode (firstn n r) < p /\ 0 <= be_decode (skipn n r) < p /\
+   (be_decode (skipn n r) * be_decode (skipn n r)) mod p =
+   (be_decode (firstn n r) * be_decode (firstn n r) * be_decode (firstn n r) + a * be_decode (firstn n r) + b) mod p) \/
+  ((t = 2 \/ t = 3) /\ length r = n /\ 0 <= be_decode r < p /\ sq = true).
+Proof.
+  intros H n. unfold ec_accept in H. fold n in H.
+  destruct (t =? 4) eqn:E.
+  - left. apply Z.eqb_eq in E.
+    apply andb_true_iff in H. destruct H as [H Hc].
+    apply andb_true_iff in H. destruct H as [Hl Hb].
+    apply andb_true_iff in Hc. destruct Hc as [Hc Hon].
+    apply andb_true_iff in Hc. destruct Hc as [Hx Hy].
+    apply Nat.eqb_eq in Hl.
+    unfold on_curve, curve_rhs in Hon.
+    pose proof (be_decode_range (firstn n r) (bytes_ok_firstn n r Hb)) as Rx.
+    pose proof (be_decode_range (skipn n r) (bytes_ok_skipn n r Hb)) as Ry.
+    repeat split; try lia.
+  - right.
+    apply andb_true_iff in H. destruct H as [H Hsq].
+    apply andb_true_iff in H. destruct H as [H Hx].
+    apply andb_true_iff in H. destruct H as [H Hb].
+    apply andb_true_iff in H. destruct H as [Ht Hl].
+    apply Nat.eqb_eq in Hl.
+    pose proof (be_decode_range r Hb) as Rx.
+    repeat split; try lia; try assumption.
+Qed.
+
 Lemma ec_uncompressed_on_curve p a b flen sq r :
   ec_accept (p, a, b, flen) sq (4 :: r) = true ->
   let n := Z.to_nat (Z.min flen 128) in
@@ -320,17 +352,7 @@ Lemma ec_uncompressed_on_curve p a b flen sq r :
   length r = (2 * n)%nat /\ 0 <= x < p /\ 0 <= y < p /\
   (y * y) mod p = (x * x * x + a * x + b) mod p.
 Proof.
-  intros H n x y. unfold ec_accept in H. fold n in H. fold x in H. fold y in H.
-  apply andb_true_iff in H. destruct H as [H Hc].
-  apply andb_true_iff in H. destruct H as [Hl Hb].
-  apply andb_true_iff in Hc. destruct Hc as [Hc Hon].
-  apply andb_true_iff in Hc. destruct Hc as [Hx Hy].
-  apply Nat.eqb_eq in Hl.
-  unfold on_curve, curve_rhs in Hon.
-  pose proof (be_decode_range (firstn n r) (bytes_ok_firstn n r Hb)) as Rx.
-  pose proof (be_decode_range (skipn n r) (bytes_ok_skipn n r Hb)) as Ry.
-  fold x in Rx. fold y in Ry.
-  repeat split; try lia.
+  intros H n x y. destruct (ec_accept_shape p a b flen sq 4 r H) as [[_ S]|[[T|T] _]]; [exact S|lia|lia].
 Qed.
 
 Lemma ec_rejects_degenerate c sq : ec_accept c sq [] = false /\ ec_accept c sq [0] = false.
@@ -356,6 +378,62 @@ Proof.
   - split; [intros _; split; reflexivity|]. split; [|discriminate].
     intros tr [R|R]; discriminate.
 Qed.
+
+(* ---- validity of an encoding (no oracle bit) and the handlers over an arbitrary library ---------- *)
+Lemma ec_valid_nil c : ~ ec_valid c [].
+Proof.
+  intros [H|[H _]]; destruct (ec_rejects_degenerate c false), (ec_rejects_degenerate c true); congruence.
+Qed.
+
+Lemma ec_valid_identity c : ~ ec_valid c [0].
+Proof.
+  intros [H|[H _]]; destruct (ec_rejects_degenerate c false), (ec_rejects_degenerate c true); congruence.
+Qed.
+
+(* complete characterisation of a valid encoding: prefix 04 with two in-range coordinates that satisfy
+   the curve equation, or prefix 02/03 with an in-range abscissa for which a point exists *)
+Lemma ec_valid_shape p a b flen t r :
+  ec_valid (p, a, b, flen) (t :: r) ->
+  let n := Z.to_nat (Z.min flen 128) in
+  (t = 4 /\ length r = (2 * n)%nat /\
+   0 <= be_decode (firstn n r) < p /\ 0 <= be_decode (skipn n r) < p /\
+   (be_decode (skipn n r) * be_decode (skipn n r)) mod p =
+   (be_decode (firstn n r) * be_decode (firstn n r) * be_decode (firstn n r) + a * be_decode (firstn n r) + b) mod p) \/
+  ((t = 2 \/ t = 3) /\ length r = n /\ 0 <= be_decode r < p /\ has_root (p, a, b, flen) (be_decode r)).
+Proof.
+  intros V n. destruct V as [H|[H [t' [r' [E R]]]]].
+  - destruct (ec_accept_shape p a b flen false t r H) as [S|[_ [_ [_ F]]]]; [left; exact S|discriminate].
+  - injection E as -> ->.
+    destruct (ec_accept_shape p a b flen true t' r' H) as [S|[T [L [X _]]]]; [left; exact S|].
+    right. repeat split; try assumption; try lia.
+Qed.
+
+Lemma ec_handler_full c (point : Type) (decode : list Z -> option point) (exch : point -> option (list Z)) :
+  (forall bs P, decode bs = Some P -> ec_valid c bs) ->
+  forall bs h, In h [steps_ecdh_init; steps_ecdh_reply] ->
+    (~ ec_valid c bs -> run_steps h (ec_env decode exch bs) = ([], Raise ValueErr)) /\
+    (forall tr res, run_steps h (ec_env decode exch bs) = (tr, res) -> tr <> [] ->
+       res = Ok tt /\ In EvSetKH tr /\ In EvActivate tr /\
+       ec_valid c bs /\ exists P s, decode bs = Some P /\ exch P = Some s).
+Proof.
+  intros Hlib bs h Hin. cbn [In] in Hin.
+  destruct Hin as [<- | [<- | []]]; unfold ec_env, steps_ecdh_init, steps_ecdh_reply;
+    cbn [run_steps lib_ok e_point_ok e_exch_ok];
+    destruct (decode bs) as [P|] eqn:D.
+  1, 3: destruct (exch P) as [s0|] eqn:X.
+  all: split.
+  all: try (intros NV; try reflexivity; exfalso; apply NV; now apply (Hlib bs P)).
+  all: intros tr res R NE; inversion R; subst; try congruence.
+  all: split; [reflexivity|]; split; [cbn [In]; tauto|]; split; [cbn [In]; tauto|].
+  all: split; [now apply (Hlib bs P) | exists P, s0; split; [reflexivity|assumption]].
+Qed.
+
+Lemma ec_hash_order :
+  ecdh_hash_order_init = [1; 2; 3; 4; 5; 6; 7; 8] /\ ecdh_hash_order_reply = [1; 2; 3; 4; 5; 6; 7; 8].
+Proof. split; reflexivity. Qed.
+
+Lemma ec_valid_degenerate c : ~ ec_valid c [] /\ ~ ec_valid c [0].
+Proof. split; [apply ec_valid_nil | apply ec_valid_identity]. Qed.
 
 (* non-vacuity helpers *)
 Lemma prime_23 : prime 23.
